@@ -2,7 +2,7 @@
    Property theorems only; each is closed by a lemma of Proofs/Lip4Proofs.v.
    `ip4_decode_into`/`ip4_serialize` model the code after the four fix: commits of branch
    agent-lnet4 of /repo; `*_orig` model the unchanged code and carry the refutations. *)
-From GP Require Import Base Codec Lip4Model Lip4Proofs.
+From GP Require Import Base Codec Lip4Model Lip4Proofs Lip4RtProofs Lip4WfProofs.
 Open Scope Z_scope.
 
 (* C19: DecodeFromBytes never panics — any previous receiver state, any list of integers as data
@@ -66,6 +66,73 @@ Theorem C07_ip4_no_panic_orig_refuted :
 Proof. exact serialize_panic_orig_refuted. Qed.
 Print Assumptions C07_ip4_no_panic_orig_refuted.
 
+(* C06: for every well-formed layer (fields in range, 4 byte addresses, options that are NOPs or
+   typed options with OptionLength = 2 + len(OptionData) >= 3, end-of-options only as the last
+   option and otherwise whole 32 bit words, at most 40 option bytes — ip4_wf), every payload that
+   fits the 16 bit total length, any buffer content: SerializeTo with FixLengths and
+   ComputeChecksums succeeds, writes header ++ options area ++ payload, sets IHL and Length to the
+   true sizes, and decoding the bytes — into any object — succeeds without truncation and gives
+   back exactly the layer as SerializeTo left it (all fields, options in order), Contents = the
+   header, Payload = the payload, Padding = the zero bytes that pad the options area. *)
+Theorem C06_ip4_roundtrip : forall l payload junk old,
+  ip4_wf l -> 20 + ip4_opt_size (i4_opts l) + zlen payload <= 65535 ->
+  exists bytes l', ip4_serialize l payload true true junk = (Ok bytes, l') /\
+    bytes = ip4_hdr l' (i4_src l) (i4_dst l) (i4_csum l') ++ ip4_area l ++ payload /\
+    i4_ihl l' = 5 + ip4_opt_size (i4_opts l) / 4 /\ i4_length l' = zlen bytes /\
+    l' = set_csum (ip4_fixed l payload) (i4_csum l') /\
+    ip4_decode_into old bytes = (ip4_readback l' l payload, Ok tt, false).
+Proof. exact ip4_roundtrip. Qed.
+Print Assumptions C06_ip4_roundtrip.
+
+(* C06: every layer obtained by decoding any byte string (into any object) is well-formed, so the
+   round trip above applies to it: "for every layer value obtained by decoding any bytes" *)
+Theorem C06_ip4_decoded_wf : forall old data l tr, bytes_ok data ->
+  ip4_decode_into old data = (l, Ok tt, tr) -> ip4_wf l.
+Proof. exact ip4_decoded_wf. Qed.
+Print Assumptions C06_ip4_decoded_wf.
+
+Theorem C06_ip4_decoded_roundtrip : forall old data l tr payload junk old',
+  bytes_ok data -> ip4_decode_into old data = (l, Ok tt, tr) ->
+  20 + ip4_opt_size (i4_opts l) + zlen payload <= 65535 ->
+  exists bytes l', ip4_serialize l payload true true junk = (Ok bytes, l') /\
+    ip4_decode_into old' bytes = (ip4_readback l' l payload, Ok tt, false).
+Proof.
+  intros old data l tr payload junk old' Hb Hd Hp.
+  destruct (ip4_roundtrip l payload junk old' (ip4_decoded_wf old data l tr Hb Hd) Hp) as [bytes [l' [H1 [_ [_ [_ [_ H2]]]]]]].
+  exists bytes, l'. split; assumption.
+Qed.
+Print Assumptions C06_ip4_decoded_roundtrip.
+
+(* C06: serializing the layer read back reproduces the bytes *)
+Theorem C06_ip4_fixpoint : forall l payload junk junk' bytes l',
+  ip4_wf l -> 20 + ip4_opt_size (i4_opts l) + zlen payload <= 65535 ->
+  ip4_serialize l payload true true junk = (Ok bytes, l') ->
+  fst (ip4_serialize (ip4_readback l' l payload) payload true true junk') = Ok bytes.
+Proof. exact ip4_fixpoint. Qed.
+Print Assumptions C06_ip4_fixpoint.
+
+(* C06, Padding: SerializeTo never reads the Padding field, so the bytes a decoded header carried
+   after end-of-options come back as zeros (known finding Lip4-padding-not-serialized) *)
+Theorem C06_ip4_padding_refuted :
+  let l := fst (fst (ip4_decode_into ip4_fresh c05_witness_a)) in
+  i4_padding l = [170;187;204] /\
+  match ip4_serialize l [] true true [] with
+  | (Ok bytes, _) => i4_padding (fst (fst (ip4_decode_into ip4_fresh bytes))) = [0;0;0]
+  | _ => False
+  end.
+Proof. vm_compute. split; reflexivity. Qed.
+Print Assumptions C06_ip4_padding_refuted.
+
+(* a layer outside ip4_wf that serializes but does not read back: OptionLength 2 is written, and
+   rejected by DecodeFromBytes ("Must be greater than 2") — the range predicate is tight there *)
+Example C06_ip4_optlen2_not_readable :
+  let l := mkIp4 [] [] 4 5 0 0 1 0 0 64 17 0 [10;0;0;1] [10;0;0;2] [mkOpt 7 2 []; mkOpt 1 1 []; mkOpt 1 1 []] [] in
+  match ip4_serialize l [] true true [] with
+  | (Ok bytes, _) => snd (fst (ip4_decode_into ip4_fresh bytes)) = Err 8
+  | _ => False
+  end.
+Proof. vm_compute. reflexivity. Qed.
+
 (* C01: LayerString/LayerDump/LayerGoString are reflective and total; the one panic condition of
    the read-only accessors (NetworkFlow -> NewFlow with an address longer than 16 bytes) is an
    invariant of decoding: false on a fresh layer and preserved by every decode, successful or not. *)
@@ -93,3 +160,18 @@ Qed.
 Example Lip4_nonvacuous_serialize :
   exists bytes l', ip4_serialize nv_layer [170;187] true true [] = (Ok bytes, l') /\ (length bytes = 34)%nat.
 Proof. eexists; eexists. vm_compute. split; reflexivity. Qed.
+
+Example Lip4_nonvacuous_wf : ip4_wf nv_layer /\ 20 + ip4_opt_size (i4_opts nv_layer) + zlen [170;187] <= 65535.
+Proof.
+  split; [|vm_compute; discriminate].
+  unfold ip4_wf. repeat (split; [vm_compute; try split; try discriminate; reflexivity|]).
+  split.
+  - exists (firstn 4 (i4_opts nv_layer)). split.
+    + let b := eval vm_compute in (firstn 4 (i4_opts nv_layer)) in change (Forall opt_rt_ok b).
+      apply Forall_cons; [left; repeat split; reflexivity|].
+      apply Forall_cons; [right; cbn [ot ol od]; unfold zlen; cbn [length]; lia|].
+      apply Forall_cons; [right; cbn [ot ol od]; unfold zlen; cbn [length]; lia|].
+      apply Forall_cons; [left; repeat split; reflexivity|]. apply Forall_nil.
+    + right. vm_compute. reflexivity.
+  - vm_compute. discriminate.
+Qed.
